@@ -6,7 +6,8 @@ import copy, logging
 ID = 'C05'
 MODULES = ['OFModel.Zmq.Receiver', 'OFModel.Zmq.Sender', 'OFModel.Zmq.Pair', 'OFModel.Zmq.PairEph', 'OFModel.Zmq.Net', 'OFModel.Zmq.NetEph', 'OFModel.Gen.Facts']
 PROP_FILES = ['C05', 'C05Pair', 'C05Net', 'C05NetTree', 'C05NetHasten', 'C05NetSyncQ',
-              'JoinEphGen', 'JoinEphSync', 'JoinEphInv', 'JoinEphRun', 'JoinEphCall', 'C05JoinEph']
+              'JoinEphGen', 'JoinEphSync', 'JoinEphInv', 'JoinEphRun', 'JoinEphCall', 'C05JoinEph',
+              'JoinEphGhost', 'JoinEphBehind', 'C05JoinEphAhead']
 RULE = ('sender: paired runs of the real ZMQSender on the same request feed with and without the requests of its ephemeral (? / ??) clients - the ids published and '
         'the set of calls that publish must agree up to stuttering (an ephemeral request may only make a publish happen one call earlier); `??` clients never '
         'produce a request.  receiver: adversarial feeds with ephemeral sources; every ephemeral contribution complete for its subscription, ids non-decreasing per source. '
